@@ -5,10 +5,13 @@ import ast
 
 from engine.cfg import CFG, normalise_compare, atoms
 from engine.dataflow import ReachingDefs
+from engine import pat
 from engine.model import src, stmt_key, walk_no_nested, dotted, AnalysisError
 from engine.util import own_nodes, calls_with_nodes, where
 
 RULES = {
+    "R-10.13": "copy-on-write copies from the OLD node: in every `fresh.rdatasets.extend(old.rdatasets)` of a version class the source is not (an alias of) the fresh node itself - otherwise every untouched name below a new or removed delegation loses its records",
+    "R-10.12": "delete_exact refuses unless EVERY given rdata is present: the DeleteNotExact('missing rdatas') raise is guarded by a subset test (`existing.intersection(rdataset) != rdataset` / `not rdataset.issubset(existing)`), not by disjointness",
     "R-10.11": "the SOA-only-at-the-origin test of Transaction._add accepts the origin in either spelling, like every other owner name: the refusal compares the name with BOTH names _origin_information() returns (the absolute origin and the effective one)",
     "R-10.10": "merging an rdataset into a stored one goes through Rdataset.add, where the singleton rule (CNAME, SOA, ...), the foreign-record refusal and the TTL minimum live (C07 R-07.7 adopted)",
     "R-10.9": "rdatasets are addressed by the full (rdclass, rdtype, covers) key wherever a zone, version, node or transaction call passes the type on; and the optional rdataset of delete()/delete_exact() is tested for presence by identity (an empty rdataset deletes nothing, it does not select the whole name)",
@@ -368,7 +371,7 @@ def run(model, rep, tier):
         un = [c for c in ast.walk(ta.node) if isinstance(c, ast.Call) and src(c.func) == "existing.union"]
         rep.check(len(un) == 1 and [src(a) for a in un[0].args] == ["rdataset"], "R-10.6", ta.qualname, where(ta, ta.node), "the result is existing.union(rdataset)", "the merge is no longer existing.union(rdataset)", stmt="merge-union")
     rep.share(model, "C19", {"R-19.1"}, "R-10.7", "the B-tree zone's writable version is a copy-on-write clone of the published node map")
-    rep.share(model, "C09", {"R-09.3"}, "R-10.8", "every put of a transaction ends in Node.replace_rdataset/_append_rdataset", only=lambda o: o.stmt == "node-filter")
+    rep.share(model, "C09", {"R-09.3"}, "R-10.8", "every put of a transaction ends in Node.replace_rdataset/_append_rdataset", only=lambda o: o.stmt in ("node-filter", "node-filter-tables", "classify"))
     rep.share(model, "C07", {"R-07.7"}, "R-10.10", "Transaction._add merges with existing.union(rdataset), i.e. Set.union_update; singleton types are kept single only by Rdataset.add")
     from rules.common import optional_results_by_identity, key_triple_forwarded
     optional_results_by_identity(model, rep, "R-10.9", {"dns.transaction"}, "the caller gave no rdataset/rdata arguments",
@@ -387,6 +390,42 @@ def run(model, rep, tier):
                   "an SOA is refused only when its owner is neither the absolute nor the effective origin",
                   f"the SOA test compares the owner name only with {sorted(compared)} of ({', '.join(elts)}) = _origin_information(): the origin given in the other spelling (absolute on a relativized zone, "
                   "the default empty name of update_serial() on an absolute zone) is refused with 'non-origin SOA' although every other record accepts both spellings", stmt="soa-origin-spelling")
+    # ---------------------------------------------------------------- R-10.12
+    td = model.func("dns.transaction.Transaction._delete")
+    miss = [n for n in ast.walk(td.node) if isinstance(n, ast.If) and any(isinstance(b, ast.Raise) and src(b).rstrip(")").rstrip("'\"").endswith("missing rdatas") for b in n.body)]
+    if len(miss) != 1:
+        rep.blind("R-10.12", td.qualname, where(td, td.node), "the `raise DeleteNotExact(... missing rdatas)` guard was not found", stmt="exact-subset")
+    else:
+        t12 = miss[0].test
+        e12 = pat.Env()
+        inter_local = pat.find(td.node, "__i = __existing.intersection(__rds)\nif __i != __rds:\n    raise DeleteNotExact(...)", e12) is not None
+        direct = pat.match(pat.parse_expr("__existing.intersection(__rds) != __rds"), t12, pat.Env()) or pat.match(pat.parse_expr("not __rds.issubset(__existing)"), t12, pat.Env()) \
+            or pat.match(pat.parse_expr("not __existing.issuperset(__rds)"), t12, pat.Env())
+        rep.check(bool(inter_local or direct), "R-10.12", td.qualname, where(td, miss[0]), "exactness = every given rdata is in the stored rdataset (subset test)",
+                  f"the exactness test is `{src(t12)[:60]}`, not a subset test: a delete_exact of several rdatas of which only some exist removes those and commits instead of raising DeleteNotExact", stmt="exact-subset")
+    # ---------------------------------------------------------------- R-10.13
+    n_cp = 0
+    for f13 in sorted(model.all_functions(), key=lambda g: g.qualname):
+        if f13.module.name not in ("dns.zone", "dns.btreezone", "dns.versioned"):
+            continue
+        exts = [c for c in ast.walk(f13.node) if isinstance(c, ast.Call) and isinstance(c.func, ast.Attribute) and c.func.attr == "extend" and isinstance(c.func.value, ast.Attribute) and c.func.value.attr == "rdatasets"
+                and c.args and isinstance(c.args[0], ast.Attribute) and c.args[0].attr == "rdatasets" and isinstance(c.args[0].value, ast.Name) and isinstance(c.func.value.value, ast.Name)]
+        if not exts:
+            continue
+        cf = CFG(f13.node, implicit_exc=False)
+        rd13 = ReachingDefs(cf, f13.params())
+        for c in exts:
+            n_cp += 1
+            dst, src_ = c.func.value.value.id, c.args[0].value.id
+            node13 = next((n for n in cf.stmts() if any(y is c for y in own_nodes(n.ast))), None)
+            alias = dst == src_
+            if node13 is not None and not alias:
+                for df in rd13.reaching(src_, node13):
+                    if df.rhs is not None and isinstance(df.rhs, ast.Name) and df.rhs.id == dst:
+                        alias = True
+            rep.check(not alias, "R-10.13", f13.qualname, where(f13, c), f"`{src(c)}` copies from the old node",
+                      f"at `{src(c)}` the source `{src_}` is (an alias of) the fresh node `{dst}` itself - it was rebound before the copy: the fresh node stays empty and the name loses every rdataset", stmt="cow-copy-source")
+    rep.floor("R-10.13", n_cp, 2)
     rep.meta["explanation"] = (
         "Typestate (dominance of _check_ended/_check_read_only before hook-reaching calls, with self-call summaries), sanitiser-before-sink "
         "taint analysis of map keys with reaching definitions, ownership of mutated nodes, and CFG shape rules for the exits. "
@@ -564,6 +603,11 @@ def _for_node_kinds(model, f, cfg, rd, d) -> set:
 
 
 WITNESSES = [
+    {"id": "c10-delete-exact-tests-disjointness", "rule": "R-10.12", "file": "dns/transaction.py", "expect": "fires",
+     "old": "                    if exact:\n                        intersection = existing.intersection(rdataset)\n                        if intersection != rdataset:\n                            raise DeleteNotExact(f\"{method}: missing rdatas\")",
+     "new": "                    if exact and existing.isdisjoint(rdataset):\n                        raise DeleteNotExact(f\"{method}: missing rdatas\")"},
+    {"id": "c10-glue-cow-copies-from-itself", "rule": "R-10.13", "file": "dns/btreezone.py", "expect": "fires",
+     "old": "                new_node.rdatasets.extend(node.rdatasets)\n                self.changed.add(ename)\n                node = new_node\n", "new": "                self.changed.add(ename)\n                node = new_node\n                new_node.rdatasets.extend(node.rdatasets)\n"},
     {"id": "c10-soa-test-one-spelling", "rule": "R-10.11", "file": "dns/transaction.py", "expect": "fires",
      "old": "                    name != origin\n                    and name != absolute_origin\n                    and name != dns.name.empty\n", "new": "                    name != origin\n"},
     {"id": "c10-delete-optional-rdataset-truth-tested", "rule": "R-10.9", "file": "dns/transaction.py", "expect": "fires",
